@@ -3,6 +3,7 @@ use crate::evidence::{Report, Tier};
 pub mod atomic;
 pub mod bitreader;
 pub mod common;
+pub mod crash;
 pub mod dequant;
 pub mod headers;
 pub mod idct;
@@ -29,14 +30,15 @@ pub fn run(id: &str, tier: Tier) -> Option<Report> {
         "C13" => pipeline::run(tier),
         "C05" => atomic::run(tier),
         "C06" => headers::run(tier),
+        "C01" => crash::run(tier),
         "C07" => yuv::run_c07(tier),
         "C08" => yuv::run_c08(tier),
         _ => return None,
     })
 }
 
-pub fn worker_entry(_args: &[String]) -> i32 {
-    2
+pub fn worker_entry(args: &[String]) -> i32 {
+    crash::worker_entry(args)
 }
 
 pub fn replay_file(path: &str) -> i32 {
